@@ -122,7 +122,21 @@ static void table_new(int opt) {
     if (!T) { fprintf(stderr, "qlisttbl() failed\n"); exit(2); }
     abandon = false; m_clear();
 }
+/* a second, unrelated list table used in between (every other history), same names, other values, a slow walk: nothing the library remembers across
+ * calls (a cached entry, a cursor) may be shared between two tables. The decoy's own results are not judged. */
+static qlisttbl_t *DECOY; static qlisttbl_obj_t DECOY_CUR;
+static void decoy_new(int opt) { DECOY = qlisttbl(opt & ~QLISTTBL_THREADSAFE); memset(&DECOY_CUR, 0, sizeof DECOY_CUR); if (DECOY) vf_count("histories_with_a_second_table_used_in_between", 1); }
+static void decoy_step(void) {
+    if (!DECOY) return;
+    int e = errno; const char *k = NAMEV[rng_below(&R, NNAMES)][rng_below(&R, 4)]; uint32_t c = rng_below(&R, 5);
+    if (c <= 1) { if (DECOY->size(DECOY) < 60) DECOY->putstr(DECOY, k, c ? "decoy-one" : "decoy-two"); memset(&DECOY_CUR, 0, sizeof DECOY_CUR); }
+    else if (c == 2) { DECOY->remove(DECOY, k); memset(&DECOY_CUR, 0, sizeof DECOY_CUR); }
+    else if (c == 3) { size_t sz; void *d = DECOY->get(DECOY, k, &sz, true); free(d); }
+    else if (!DECOY->getnext(DECOY, &DECOY_CUR, NULL, false)) memset(&DECOY_CUR, 0, sizeof DECOY_CUR);
+    vf_count("operations_on_the_second_table", 1); errno = e;
+}
 static void table_free(void) {
+    if (DECOY) { DECOY->free(DECOY); DECOY = NULL; }
     T->free(T); T = NULL;
     long live = vf_ledger_live_since(ledger_mark);
     vf_count("containers_released", 1);
@@ -300,7 +314,9 @@ static void history(long caseno) {
     vf_case_begin(caseno, "random history: UNIQUE=%d CASEINSENSITIVE=%d INSERTTOP=%d LOOKUPFORWARD=%d ops=%d", opt & 1, !!(opt & 2), !!(opt & 4), !!(opt & 8), nops);
     table_new(opt);
     bool strings_only = rng_chance(&R, 1, 2);   /* so that save/load is applicable */
+    if ((caseno >> 4) & 1) decoy_new((oU ? QLISTTBL_UNIQUE : 0) | (oC ? QLISTTBL_CASEINSENSITIVE : 0) | (oT ? 0 : QLISTTBL_INSERTTOP) | (oF ? 0 : QLISTTBL_LOOKUPFORWARD));   /* same key semantics, opposite directions */
     for (int op = 0; op < nops && !abandon; op++) {
+        if (DECOY && rng_chance(&R, 1, 3)) decoy_step();
         const char *name = NAMEV[rng_below(&R, rng_chance(&R, 1, 3) ? 3 : NNAMES)][rng_below(&R, 4)];
         uint32_t c = rng_below(&R, 100);
         if (c < 34) { if (strings_only) { char *kb = vf_xdup(name, strlen(name) + 1); size_t vl = gen_value(true); vf_log("putstr %s v=%s", name, vf_hex(VBUF, vl));
